@@ -234,6 +234,9 @@ PLANS['C15'] = dict(
         G('deadlines', 'c-asan', 'A', 1, NCASE15, **C15G),
         G('deadlines', 'cpp-plain', 'A', 1, NCASE15, **C15G),
         G('deadlines', 'c-plain', 'B', 1, NCASE15, **C15G),
+        G('deadlines', 'c-plain', 'B', 1, NCASE15, params=dict(intr=1), **C15G),     # interrupted futex waits (EINTR): must not be taken for a timeout
+        G('deadlines', 'c-plain', 'A', 1, NCASE15, params=dict(intr=1), **C15G),
+        G('deadlines', 'cpp-plain', 'A', 1, NCASE15, params=dict(intr=1), tier='thorough', **C15G),
         G('deadlines', 'cpp-asan', 'A', 1, NCASE15, tier='thorough', **C15G),
         G('deadlines', 'c-plain', 'A', 4, NCASE15, tier='thorough', params=dict(noperturb=0), **C15G),
     ],
@@ -310,17 +313,19 @@ PLANS['C18'] = dict(
 AF = dict(wraps=['malloc', 'calloc'], ldflags=['-rdynamic'])
 PLANS['C19'] = dict(
     level='fault_enumeration',
-    rule='fault enumeration: round r fails the (r mod 13)-th malloc issued from inside nsync_note_new / nsync_counter_new while a tree of 7 notes and 3 counters is built '
-         '(10 constructor calls by the builder; indices beyond the number of calls are control rounds), single-threaded and with a second thread contending for the root; '
+    rule='fault enumeration: round r fails the (r mod 17)-th allocation (malloc or calloc) made by a thread while it is inside a constructor call '
+         '(nsync_note_new / nsync_counter_new, bracketed by the harness; wherever in the library the allocation is made) while a tree of 7 notes and 3 counters is built, '
+         'the root is notified, and four more notes are created under parents that are already notified or expired '
+         '(12 constructor calls by the builder; indices beyond the number of calls are control rounds), single-threaded and with a second thread contending for the root; '
          'every placement of one failure among the constructor allocations of the scenario is enumerated in each build and mode. '
          'distinct_nontrivial = distinct (failed index, thread count, schedule/history) executions in which a constructor returned NULL.',
     groups=[
-        G('alloc_fail', 'c-asan', 'B', 2, 26 * 20, thorough=26 * 400, **AF),
-        G('alloc_fail', 'c-asan', 'A', 2, 26 * 10, thorough=26 * 200, **AF),
-        G('alloc_fail', 'cpp-asan', 'B', 1, 26 * 10, thorough=26 * 200, **AF),
-        G('alloc_fail', 'c-plain', 'A', 1, 26 * 10, thorough=26 * 200, **AF),
+        G('alloc_fail', 'c-asan', 'B', 2, 34 * 16, thorough=34 * 320, **AF),
+        G('alloc_fail', 'c-asan', 'A', 2, 34 * 8, thorough=34 * 160, **AF),
+        G('alloc_fail', 'cpp-asan', 'B', 1, 34 * 8, thorough=34 * 160, **AF),
+        G('alloc_fail', 'c-plain', 'A', 1, 34 * 8, thorough=34 * 160, **AF),
     ],
-    assumptions=['only allocations issued by the two constructors themselves are failed; allocations of the waiter pool (nsync_mu_lock under contention) are counted and left alone'],
+    assumptions=['only allocations made during a constructor call are failed; allocations of the waiter pool (caller inside nsync_waiter_new_: nsync_mu_lock under contention) are counted and left alone'],
 )
 
 
@@ -524,7 +529,7 @@ PLANS['C12']['floor'] = need('waits_that_slept', 'timeouts_at_or_after_deadline'
 PLANS['C13']['floor'] = need('objects_freed_by_last_user', 'final_acquisitions_that_slept', 'calls_with_5_objects_heap_path')
 PLANS['C15']['floor'] = need('expired_deadline_cases', 'near_future_cases', 'blocking_cases')
 PLANS['C16']['floor'] = need('debug_calls', 'quiescent_states_checked', 'truncated_cases', 'fitting_cases')
-PLANS['C19']['floor'] = need('note_new_null', 'counter_new_null', 'rounds_without_failure', 'null_seen_by_concurrent_thread')
+PLANS['C19']['floor'] = need('note_new_null', 'counter_new_null', 'rounds_without_failure', 'null_seen_by_concurrent_thread', 'null_returns_with_notified_or_expired_parent')
 
 
 THOROUGH_FACTOR = 8
